@@ -1,5 +1,6 @@
 PROP = {
     "id": "C06",
+    "tie2": ["Tie2Hsms"],
     "harness": "c06",
     "driver": "c06",
     "n_quick": 240,
